@@ -35,8 +35,9 @@ CHECK = {
         "returns: queued must equal the ledger",
     ],
     "bounds": {"quick": {"deviations": 2},
-               "thorough": {"deviations_secondary": 2, "deviations_initializer_order_none": 3,
-                            "deviations_initializer_other_orders": 2}},
+               "thorough": {"deviations_secondary": 2,
+                            "deviations_secondary_several_primaries_capacity<=3": 3,
+                            "deviations_initializer": 3}},
     "parts": [
         {"name": "secondary", "harness": "c16_exhaust", "flavour": "asan", "env": {"ASAN_OPTIONS": _ASAN},
          "shards": {"quick": 16, "thorough": 16}, "deadline": {"quick": 100, "thorough": 1200}},
